@@ -4,7 +4,9 @@
 // license that can be found in the LICENSE file or at
 // https://opensource.org/licenses/MIT.
 
-use onig::{Regex, RegexOptions, Syntax};
+use onig::{MatchParam, Regex, RegexOptions, SearchOptions, Syntax};
+
+use super::MatcherIO;
 
 /// Parse a string as a POSIX Basic Regular Expression.
 fn parse_bre(expr: &str, options: RegexOptions) -> Result<Regex, onig::Error> {
@@ -174,8 +176,36 @@ impl Pattern {
     }
 
     /// Test if this pattern matches a string.
+    #[cfg(test)]
     pub fn matches(&self, string: &str) -> bool {
-        self.regex.as_ref().is_some_and(|r| r.is_match(string))
+        self.try_matches(string).unwrap_or(false)
+    }
+
+    /// Test if this pattern matches a string.  Regex::is_match() panics when
+    /// the match itself fails (many wildcards against a long name run into
+    /// the retry limit), so that failure is returned instead.
+    pub fn try_matches(&self, string: &str) -> Result<bool, onig::Error> {
+        let Some(regex) = &self.regex else {
+            return Ok(false);
+        };
+        let matched = regex.match_with_param(
+            string,
+            0,
+            SearchOptions::SEARCH_OPTION_NONE,
+            None,
+            MatchParam::default(),
+        )?;
+        Ok(matched == Some(string.len()))
+    }
+
+    /// Test if this pattern matches a string on behalf of a matcher: a failed
+    /// match is reported, sets the exit status, and counts as no match.
+    pub fn matches_or_report(&self, string: &str, matcher_io: &mut MatcherIO) -> bool {
+        self.try_matches(string).unwrap_or_else(|e| {
+            eprintln!("find: '{string}': pattern match failed: {e}");
+            matcher_io.set_exit_code(1);
+            false
+        })
     }
 }
 
